@@ -109,7 +109,8 @@ def compile_all(ctx, specs):
 
 def run_symx(ctx, binary, pattern, workers=NCPU, deadline=None, profile=None, cap=None, max_paths=None, env=None, label=None):
     """Run one symx harness over the cases matching pattern; returns parsed JSON (or an error record)."""
-    out = os.path.join(ctx.scratch, "out_%d.json" % (len(ctx.results) + int(time.time() * 1000) % 100000))
+    import threading
+    out = os.path.join(ctx.scratch, "out_%d_%d.json" % (threading.get_ident() % 100000, int(time.time() * 1000) % 1000000))
     cmd = [binary, "--run", pattern, "--workers", str(workers), "--out", out]
     if deadline:
         cmd += ["--deadline", str(deadline)]
